@@ -218,7 +218,9 @@ class Emitter:
             return self.v["structs"][t[1]]["coq"]
         if k == "opt":
             return "(option %s)" % self.coq_ty(t[1])
-        if k == "list":
+        if k in ("list", "iter"):
+            # ("iter", T): a consuming iterator over a Vec (`v.into_iter()`), modelled as the list of the elements
+            # still to come; a type of its own so that `next` is only ever a vocabulary method of such a value
             return "(list %s)" % self.coq_ty(t[1])
         if k == "tuple":
             return "(" + " * ".join(self.coq_ty(x) for x in t[1]) + ")"
